@@ -643,6 +643,8 @@ class Interp:
       for op, rn in zip(node.ops, node.comparators):
         right = ev(rn)
         r = self.compare(op, left, right, node)
+        if isinstance(r, NdArr):
+          return r if len(node.ops) == 1 else Opaque('cmp-chain')   # an elementwise comparison yields an array
         if isinstance(r, Opaque):
           if not self.decide(f'cmp:{node.lineno}:{ast.unparse(node)[:40]}'):
             return False
@@ -805,6 +807,16 @@ class Interp:
         return Opaque('in')
       return r if isinstance(op, ast.In) else not r
     f = consteval._CMPOPS[type(op)]  # pylint: disable=protected-access
+    if (isinstance(a, NdArr) or isinstance(b, NdArr)) and isinstance(op, (ast.Lt, ast.LtE, ast.Gt, ast.GtE, ast.Eq, ast.NotEq)):
+      # elementwise comparison of arrays: an array of booleans (its truth value is only defined for one element)
+      try:
+        r = NdArr.broadcast(f, a, b)
+      except (ValueError, TypeError):
+        return Opaque('cmp')
+      if isinstance(r, NdArr):
+        r.kind = 'b'
+        return r if r.size != 1 else r   # np.all / np.any / bool() decide what it means
+      return r
     try:
       return f(a, b)
     except TypeError:
